@@ -297,6 +297,12 @@ ADD10 = {
  "C12": " Round 10: SEQ-ADVANCE (streams and blocks of a chain are decoded behind what the previous ones delivered).",
  "C16": " Round 10: CE-STATE-RESET, CE-COPYN.",
 }
+ADD11 = {
+ "C15": " After round 10: CE-FORMAT-NORM (normalizeFormat evaluated for all documented and some undocumented -F names with and without -d: xz / lzma / auto only when decompressing, alone is lzma, others refused).",
+ "C17": " After round 10: CE-BT-WRITE (binTree.Write(p) = WriteByte for every byte of p, evaluated on trees of 3 and 5 nodes).",
+}
+for pid, text in ADD11.items():
+    ADD10[pid] = ADD10.get(pid, "") + text
 for pid, text in ADD10.items():
     ADD9[pid] = ADD9.get(pid, "") + text
 for pid, text in ADD9.items():
@@ -314,7 +320,7 @@ for pid, text in ADD4.items():
     ADD[pid] = (tech, t0 + text)
 for pid, (tech, text) in ADD.items():
     t0, x0, n0, r0 = CLAIMS[pid]
-    CLAIMS[pid] = (t0 + "; " + tech, x0 + text, n0 + "TERM normal forms (term.go), LIN (lin.go), reference function table knownfuncs.txt. ", r0 + ", §12")
+    CLAIMS[pid] = (t0 + "; " + tech, x0 + text, n0 + "TERM normal forms (term.go), LIN (lin.go), reference tables knownfuncs.txt / knownedges.txt / knownsyms.txt (new helpers are transparent, pure renames are resolved). ", r0 + ", §12")
 
 NOT_YET = "not yet decided: rules under construction (DESIGN.md §10); no claim is made"
 
